@@ -21,6 +21,8 @@ from vlib import link
 SHAPES = {
     # name: (env decl, sys decl, env action reads, sys action reads, n_goals, n_holds)
     'S11': (dict(x='bool'), dict(y='bool'), ['x', "x'"], ['x', 'y', "y'"], 1, 1),
+    'S11h2': (dict(x='bool'), dict(y='bool'), ['x', "x'"], ['x', 'y', "y'"], 1, 2),
+    'S11g2': (dict(x='bool'), dict(y='bool'), ['x', "x'"], ['x', 'y', "y'"], 2, 1),
     'B11a': (dict(x='bool'), dict(y='bool'), ['x', 'y', "x'"], ['x', 'y', "x'", "y'"], 1, 1),
     'B11b': (dict(x='bool'), dict(y='bool'), ['x', 'y', "x'", "y'"], ['x', 'y', "x'", "y'"], 1, 1),
     'B11c21': (dict(x='bool'), dict(y='bool'), ['x', 'y', "x'"], ['x', 'y', "x'", "y'"], 2, 1),
